@@ -64,6 +64,9 @@ pub mod h_arity {
 pub mod h_iter_t {
     include!(concat!(env!("CHUMSKY_VERIF_DIR"), "/h_iter_t.rs"));
 }
+pub mod h_input2 {
+    include!(concat!(env!("CHUMSKY_VERIF_DIR"), "/h_input2.rs"));
+}
 pub mod h_pratt2 {
     include!(concat!(env!("CHUMSKY_VERIF_DIR"), "/h_pratt2.rs"));
 }
@@ -96,6 +99,7 @@ pub fn register_all(r: &mut Vec<(&'static str, fn())>) {
     h_clone::register(r);
     h_iter2::register(r);
     h_pratt2::register(r);
+    h_input2::register(r);
     h_iter_t::register(r);
     h_arity::register(r);
     h_comp::register(r);
